@@ -66,7 +66,7 @@ theorem predictedMetric_eq (m : Metric) (names : List String) (rules : List Rule
 
 theorem rawPoints_noflip_gt (xm ym : Metric) (rows : List Row) (p : Pt) (hp : p ∈ rawPoints false xm ym rows) :
     p.op.gt = true := by
-  unfold rawPoints at hp
+  rw [rawPoints_eq] at hp
   obtain ⟨s, _, hs⟩ := List.mem_flatMap.mp hp
   unfold stepPoints operations at hs
   simp only [Bool.false_eq_true, if_false, operationsNoFlip, List.map_cons, List.map_nil, List.mem_singleton] at hs
